@@ -65,6 +65,13 @@ type claimSpec struct {
 	recv     sdk.AccAddress // send-to-fx receiver (fresh per claim)
 	contract common.Address // bridge-call target (fresh per claim; code is installed by the exec op)
 	refund   string         // bridge-call refund address (external format)
+	// round 4: the real objects a claim refers to
+	batchToken string // send-to-external (batch executed) claim: token contract and nonce of a real batch (or of none)
+	batchNonce uint64
+	outNonce   uint64 // bridge-call-result claim: nonce of a real outgoing bridge call (0: an unknown one)
+	realSet    bool   // oracle-set claim built from the latest stored oracle set
+	setNonce   uint64
+	setMembers []crosschaintypes.BridgeValidator
 }
 
 // callNode is one `executeClaim(chain, n)` call of an exec op: the call the harness sends (root) or a call the called-back
@@ -164,6 +171,7 @@ type world struct {
 	gov   string
 
 	oracles     []sdk.AccAddress
+	oracleKeys  []cryptotypes.PrivKey // round 4: registry messages can be delivered as transactions signed by the oracle
 	bridgers    []sdk.AccAddress
 	bridgerKeys []cryptotypes.PrivKey
 	exts        []string
@@ -204,6 +212,12 @@ type world struct {
 	curClaim   bool
 	lostRefund map[uint64]int64 // refund records (outgoing bridge calls) of event nonces that a genesis export/import dropped
 	saved      *savedWorld
+	// round 4
+	user      sdk.AccAddress  // sends transfers into the outgoing pool
+	batchSeq  int64
+	asTx      bool // the next bond / add-delegate / unbond op is delivered as a signed transaction in a block of its own
+	lostCalls map[[2]uint64]bool // result claims whose outgoing bridge calls a genesis export / import dropped
+	consumed  map[[2]uint64]bool // result claims whose outgoing bridge call was consumed by their execution
 }
 
 // savedWorld: what `save` remembers (small-scope enumeration): the store branch point and the monitor state
@@ -239,7 +253,7 @@ func newWorld(t *testing.T, s *hx.Suite, out *hx.Out, rng *rand.Rand, chain stri
 		gov:      authtypes.NewModuleAddress(govtypes.ModuleName).String(),
 		oracleID: map[string]int{}, bridgerID: map[string]int{}, extID: map[string]int{}, hashID: map[string]int{},
 		specs: map[[2]uint64]claimSpec{}, observedAt: map[uint64]string{}, executed: map[uint64]bool{},
-		rebonded: map[int]bool{}, reported: map[string]bool{}, unbonded: map[int]bool{}, votedH: map[string]map[uint64]uint64{}, lostRefund: map[uint64]int64{}, touched: map[common.Address]bool{}, touchedCode: map[common.Address]bool{}, former: map[int][]int{}, pr: sdk.DefaultPowerReduction, multiple: mult}
+		lostCalls: map[[2]uint64]bool{}, consumed: map[[2]uint64]bool{}, rebonded: map[int]bool{}, reported: map[string]bool{}, unbonded: map[int]bool{}, votedH: map[string]map[uint64]uint64{}, lostRefund: map[uint64]int64{}, touched: map[common.Address]bool{}, touchedCode: map[common.Address]bool{}, former: map[int][]int{}, pr: sdk.DefaultPowerReduction, multiple: mult}
 	w.threshold = w.pr.MulRaw(thrUnits)
 	rich := sdk.NewCoin(fxtypes.DefaultDenom, w.pr.MulRaw(100_000_000))
 	poor := -1 // one oracle account that can pay the minimum stake twice but not more: larger bonds / add-delegates fail in the bank
@@ -247,7 +261,9 @@ func newWorld(t *testing.T, s *hx.Suite, out *hx.Out, rng *rand.Rand, chain stri
 		poor = nO - 1
 	}
 	for i := 0; i < nO; i++ {
-		a := helpers.GenAccAddress()
+		opk := helpers.NewPriKey()
+		a := sdk.AccAddress(opk.PubKey().Address())
+		w.oracleKeys = append(w.oracleKeys, opk)
 		if i == poor {
 			s.MintToken(a, sdk.NewCoin(fxtypes.DefaultDenom, w.threshold.MulRaw(2)))
 			w.oracles = append(w.oracles, a)
@@ -561,6 +577,13 @@ func (w *world) effects() map[uint64]int64 {
 			if b.Sign() > 0 {
 				res[k[0]] += new(big.Int).Quo(b, big.NewInt(callAmount)).Int64()
 			}
+		case "r":
+			// result claim of a real outgoing bridge call: its effect is that the record is consumed
+			// (sticky: after a genesis import the id counter of outgoing bridge calls can hand out a consumed nonce again)
+			if sp.outNonce != 0 && !w.lostCalls[k] && (w.consumed[k] || !w.k.HasOutgoingBridgeCall(ctx, sp.outNonce)) {
+				res[k[0]]++
+				w.consumed[k] = true
+			}
 		}
 	}
 	w.k.IterateOutgoingBridgeCalls(ctx, func(o *crosschaintypes.OutgoingBridgeCall) bool {
@@ -784,6 +807,13 @@ func (w *world) spec(n, h uint64, wantKind string) claimSpec {
 		return sp
 	}
 	sp := claimSpec{kind: wantKind}
+	if wantKind == "x" {
+		sp.kind = "e"
+	}
+	if strings.HasPrefix(wantKind, "S:") || strings.HasPrefix(wantKind, "x:") {
+		wantKind = "s:" + wantKind[2:]
+		sp.kind, sp.realSet = wantKind, true
+	}
 	if strings.HasPrefix(wantKind, "s:") {
 		for _, x := range strings.Split(wantKind[2:], ",") {
 			if id, err := strconv.Atoi(x); err == nil && id >= extBase && id < extBase+len(w.exts) {
@@ -800,6 +830,7 @@ func (w *world) spec(n, h uint64, wantKind string) claimSpec {
 	sp.recv = helpers.GenAccAddress()
 	sp.contract = helpers.GenHexAddress()
 	sp.refund = helpers.GenExternalAddr(w.chain)
+	w.fillSpec(&sp, h)
 	w.specs[k] = sp
 	return sp
 }
@@ -810,8 +841,16 @@ func (w *world) mkClaim(n, hid uint64, sp claimSpec, bridger string) crosschaint
 	switch {
 	case sp.kind == "r":
 		// result of an outgoing bridge call that does not exist: parked like the others, its deferred handler fails
+		// (round 4: or of a real one — then the deferred execution succeeds and consumes the record)
+		out := 900000 + n
+		if sp.outNonce != 0 {
+			out = sp.outNonce
+		}
 		return &crosschaintypes.MsgBridgeCallResultClaim{ChainName: w.chain, BridgerAddress: bridger, EventNonce: n, BlockHeight: ext,
-			Nonce: 900000 + n, TxOrigin: w.sender, Success: h%2 == 0, Cause: fmt.Sprintf("%02x", h)}
+			Nonce: out, TxOrigin: w.sender, Success: h%2 == 0, Cause: fmt.Sprintf("%02x", h)}
+	case sp.kind == "e":
+		return &crosschaintypes.MsgSendToExternalClaim{EventNonce: n, BlockHeight: ext, BatchNonce: sp.batchNonce, TokenContract: sp.batchToken,
+			BridgerAddress: bridger, ChainName: w.chain}
 	case sp.kind == "p":
 		token := sp.token // unknown token: the deferred handler fails
 		if h%2 == 0 {
@@ -841,13 +880,20 @@ func (w *world) mkClaim(n, hid uint64, sp claimSpec, bridger string) crosschaint
 		for _, id := range sp.members {
 			ms = append(ms, crosschaintypes.BridgeValidator{Power: 1000 + h, ExternalAddress: w.exts[id-extBase]})
 		}
-		return &crosschaintypes.MsgOracleSetUpdatedClaim{EventNonce: n, BlockHeight: ext, OracleSetNonce: 0, Members: ms, BridgerAddress: bridger, ChainName: w.chain}
+		if sp.setNonce != 0 {
+			ms = sp.setMembers
+		}
+		return &crosschaintypes.MsgOracleSetUpdatedClaim{EventNonce: n, BlockHeight: ext, OracleSetNonce: sp.setNonce, Members: ms, BridgerAddress: bridger, ChainName: w.chain}
 	}
 }
 
 func (w *world) bridgerAddr(id int) (sdk.AccAddress, bool) {
 	if id >= bridgerBase && id < bridgerBase+len(w.bridgers) {
 		return w.bridgers[id-bridgerBase], true
+	}
+	// round 4: an ORACLE account used where a bridger is expected (a claim signed with the oracle key itself)
+	if id >= oracleBase && id < oracleBase+len(w.oracles) {
+		return w.oracles[id-oracleBase], true
 	}
 	return nil, false
 }
@@ -908,7 +954,26 @@ func (w *world) opClaim(wrapper, inner int, n, h uint64, kind string) string {
 	nAtts := len(w.atts())
 	w.curH, w.curClaim = h, true
 	defer func() { w.curClaim = false }()
+	label := w.kindLabel(sp)
+	obsBefore := ""
+	if label[0] == 'x' {
+		obsBefore = w.observe()
+	}
 	res, _ := w.route(&crosschaintypes.MsgClaim{ChainName: w.chain, BridgerAddress: wa.String(), Claim: anyv})
+	if strings.HasPrefix(res, "panic") {
+		// the handler panicked inside TryAttestation: baseapp recovers it, the message fails as a whole
+		w.out.Count("claim:handler-panic:" + label[:1])
+		if _, seen := w.out.Stats.Extra["claim-panic-sample"]; !seen {
+			w.out.Stats.Extra["claim-panic-sample"] = res
+		}
+		if label[0] != 'x' {
+			w.out.Count("claim:UNEXPECTED-handler-panic")
+		}
+		res = "panic"
+		if now := w.observe(); obsBefore != "" && now != obsBefore {
+			w.violate("C01 C02", "a claim whose handler panicked left a trace in the module state")
+		}
+	}
 	if res == "ok" && found {
 		m := w.votedH[oa.String()]
 		if m == nil {
@@ -927,6 +992,18 @@ func (w *world) opClaim(wrapper, inner int, n, h uint64, kind string) string {
 		w.out.Count("claim:pruned-attestations")
 	}
 	if lo2 := w.k.GetLastObservedEventNonce(w.s.Ctx); lo2 != w.prevLo {
+		w.out.Count("observed:claim-kind:" + label[:1])
+		if label[0] == 'x' && res == "ok" {
+			// the theorem `panicking_handler_never_observes`, stated on the real state
+			what := "its batch is not in the store (never built, already executed, cancelled or timed out)"
+			if strings.HasPrefix(label, "x:") {
+				what = "it contradicts the stored oracle set of its nonce"
+			}
+			w.violate("C01", fmt.Sprintf("event nonce %d took effect although its handler has nothing it can apply: %s — such an event must not be observable (an event takes effect exactly once, with its effects)", n, what))
+		}
+		if sp.setNonce != 0 {
+			w.out.Count("observed:oracle-set-claim-with-real-nonce")
+		}
 		for k, s2 := range w.specs {
 			if s2.kind == "c" && k[0] <= lo2 {
 				w.touched[s2.contract] = true
@@ -970,7 +1047,7 @@ func (w *world) opClaim(wrapper, inner int, n, h uint64, kind string) string {
 	if res == "ok" && wrapper != inner {
 		w.out.Count("claim:accepted-with-wrapper!=inner(in-process)")
 	}
-	w.out.Emit(fmt.Sprintf("claim %d %d %d %d %s %d", wrapper, inner, n, h, sp.kind, 1000+n+h/4), res+" "+w.observe())
+	w.out.Emit(fmt.Sprintf("claim %d %d %d %d %s %d", wrapper, inner, n, h, label, 1000+n+h/4), res+" "+w.observe())
 	w.monitors(before)
 	return res
 }
@@ -983,8 +1060,18 @@ func (w *world) opBond(o, b, e int, amt sdkmath.Int) string {
 	}
 	before := w.snapshot()
 	val := w.s.ValAddr[w.rng.Intn(len(w.s.ValAddr))]
-	res, _ := w.route(&crosschaintypes.MsgBondedOracle{ChainName: w.chain, OracleAddress: oa.String(), BridgerAddress: ba.String(),
-		ExternalAddress: w.exts[e-extBase], ValidatorAddress: val.String(), DelegateAmount: crosschaintypes.NewDelegateAmount(amt)})
+	bm := &crosschaintypes.MsgBondedOracle{ChainName: w.chain, OracleAddress: oa.String(), BridgerAddress: ba.String(),
+		ExternalAddress: w.exts[e-extBase], ValidatorAddress: val.String(), DelegateAmount: crosschaintypes.NewDelegateAmount(amt)}
+	if w.asTx {
+		w.asTx = false
+		return w.opTxMsg("bond", o, bm, before, func(dep bool) string { return fmt.Sprintf("bond %d %d %d %s %d", o, b, e, amt.String(), b2i(dep)) },
+			func(res string) {
+				if res == "ok" && w.unbonded[o] {
+					w.rebonded[o] = true
+				}
+			})
+	}
+	res, _ := w.route(bm)
 	dep := res != "err:dep"
 	if res == "ok" && w.unbonded[o] {
 		w.rebonded[o] = true
@@ -1000,7 +1087,12 @@ func (w *world) opAddDelegate(o int, amt sdkmath.Int) string {
 		return "skip"
 	}
 	before := w.snapshot()
-	res, _ := w.route(&crosschaintypes.MsgAddDelegate{ChainName: w.chain, OracleAddress: oa.String(), Amount: crosschaintypes.NewDelegateAmount(amt)})
+	am := &crosschaintypes.MsgAddDelegate{ChainName: w.chain, OracleAddress: oa.String(), Amount: crosschaintypes.NewDelegateAmount(amt)}
+	if w.asTx {
+		w.asTx = false
+		return w.opTxMsg("adddel", o, am, before, func(dep bool) string { return fmt.Sprintf("adddel %d %s %d", o, amt.String(), b2i(dep)) }, nil)
+	}
+	res, _ := w.route(am)
 	dep := res != "err:dep"
 	w.out.Emit(fmt.Sprintf("adddel %d %s %d", o, amt.String(), b2i(dep)), res+" "+w.observe())
 	w.monitors(before)
@@ -1053,7 +1145,17 @@ func (w *world) opUnbond(o int) string {
 		bal = w.s.App.BankKeeper.GetBalance(w.s.Ctx, da, fxtypes.DefaultDenom).Amount
 	}
 	before := w.snapshot()
-	res, _ := w.route(&crosschaintypes.MsgUnbondedOracle{ChainName: w.chain, OracleAddress: oa.String()})
+	um := &crosschaintypes.MsgUnbondedOracle{ChainName: w.chain, OracleAddress: oa.String()}
+	if w.asTx {
+		w.asTx = false
+		return w.opTxMsg("unbond", o, um, before, func(dep bool) string { return fmt.Sprintf("unbond %d %d %s %d", o, b2i(ubd), bal.String(), b2i(dep)) },
+			func(res string) {
+				if res == "ok" {
+					w.unbonded[o] = true
+				}
+			})
+	}
+	res, _ := w.route(um)
 	dep := res != "err:dep"
 	if res == "ok" {
 		w.unbonded[o] = true
@@ -1189,7 +1291,12 @@ func (w *world) install(root *callNode) {
 // claims are contracts that call `executeClaim` again from inside the callback, as `root` prescribes.
 func (w *world) opExec(root *callNode) string {
 	n := root.n
-	_, pending := w.k.GetPendingExecuteClaim(w.s.Ctx, n)
+	pcl, pending := w.k.GetPendingExecuteClaim(w.s.Ctx, n)
+	ptype := "none"
+	if pending {
+		ptype = strings.TrimPrefix(fmt.Sprintf("%T", pcl), "*types.")
+	}
+	defer func() { w.out.Count("exec:root-claim-type:" + ptype) }()
 	before := w.snapshot()
 	w.install(root)
 	from := w.caller
@@ -1219,6 +1326,7 @@ func (w *world) opExec(root *callNode) string {
 		}
 	}
 	if res == "ok" {
+		w.out.Count("exec:ok:" + ptype)
 		if w.executed[n] {
 			w.violate("C01", fmt.Sprintf("pending claim of event nonce %d executed twice", n))
 		}
@@ -1444,11 +1552,16 @@ func (w *world) randKind(n, h uint64) string {
 		if len(ms) == 0 {
 			return "p"
 		}
+		if w.rng.Intn(2) == 0 && w.k.GetLatestOracleSetNonce(w.s.Ctx) > 0 {
+			return "S:" + strings.Join(ms, ",") // from the latest stored oracle set (members replaced by its members)
+		}
 		return "s:" + strings.Join(ms, ",")
 	case 3, 4, 5:
 		return "c"
 	case 6:
 		return "r"
+	case 7:
+		return "e"
 	}
 	return "p"
 }
@@ -1487,7 +1600,11 @@ func (w *world) genTree(n uint64) *callNode {
 				return node
 			}
 		case *crosschaintypes.MsgBridgeCallResultClaim:
-			node.o = 'f'
+			if !w.k.HasOutgoingBridgeCall(w.s.Ctx, c.Nonce) {
+				node.o = 'f' // unknown outgoing bridge call: the handler panics
+			} else {
+				w.out.Count("exec:plan:result-of-real-bridge-call")
+			}
 			return node
 		default:
 			return node
@@ -1573,6 +1690,13 @@ func (w *world) randomClaim() {
 			n = r.lastEff + 1
 			w.out.Count("claim:through-former-bridger")
 		}
+	}
+	// the oracle's OWN account in the bridger field (not its registered bridger), with the nonce that would be accepted
+	if len(regs) > 0 && w.rng.Intn(20) == 0 {
+		r := regs[w.rng.Intn(len(regs))]
+		inner = r.id
+		n = r.lastEff + 1
+		w.out.Count("claim:with-the-oracle-account-as-bridger")
 	}
 	if n == 0 {
 		n = 1
@@ -1680,8 +1804,10 @@ func (w *world) randomOp() {
 	case r < 62:
 		w.randomClaim()
 	case r < 68: // bond
+		w.asTx = w.rng.Intn(8) == 0
 		o := oracleBase + w.rng.Intn(len(w.oracles))
 		res := w.opBond(o, w.freeBridger(), w.freeExt(), w.randomStake())
+		w.asTx = false
 		w.out.Count("bond:" + res)
 	case r < 74: // add delegate (brings slashed oracles back online)
 		o := oracleBase + w.rng.Intn(len(w.oracles))
@@ -1707,7 +1833,9 @@ func (w *world) randomOp() {
 				}
 			}
 		}
+		w.asTx = w.rng.Intn(8) == 0
 		res := w.opAddDelegate(o, amt)
+		w.asTx = false
 		w.out.Count("adddel:" + res)
 	case r < 78:
 		o := oracleBase + w.rng.Intn(len(w.oracles))
@@ -1762,7 +1890,9 @@ func (w *world) randomOp() {
 				o = x.id
 			}
 		}
+		w.asTx = w.rng.Intn(8) == 0
 		res := w.opUnbond(o)
+		w.asTx = false
 		w.out.Count("unbond:" + res)
 	default:
 		lo := w.k.GetLastObservedEventNonce(w.s.Ctx)
@@ -1814,7 +1944,7 @@ func runLongHistory(t *testing.T, s *hx.Suite, out *hx.Out, rng *rand.Rand, chai
 	total := uint64(crosschaintypes.MaxKeepEventSize) + 4 + uint64(rng.Intn(6))
 	late := 20 + uint64(rng.Intn(60))
 	for n := uint64(1); n <= total; n++ {
-		kind := []string{"p", "c", "o"}[rng.Intn(3)]
+		kind := []string{"p", "c", "o", "p", "c", "o", "e", "r"}[rng.Intn(8)]
 		if rng.Intn(6) == 0 {
 			// the small oracle catches up with competing claims first (no quorum), then the two big ones agree
 			for m := w.k.GetLastEventNonceByOracle(w.s.Ctx, w.oracles[2]) + 1; m <= n; m++ {
@@ -1971,14 +2101,10 @@ func (w *world) votesOf(oracle sdk.AccAddress) int {
 // Monitors: a vote may be recorded only for an oracle whose registered bridger signed the transaction; the signers
 // the codec derives for a claim message must include the bridger the vote is counted for whenever the tx is accepted.
 func (w *world) txLevel() {
-	// an attacker account that is nobody's bridger
-	wKey := helpers.NewPriKey()
-	wAddr := sdk.AccAddress(wKey.PubKey().Address())
-	w.s.MintToken(wAddr, sdk.NewCoin(fxtypes.DefaultDenom, w.pr.MulRaw(1000)))
 	pp := w.k.GetParams(w.s.Ctx)
 	pp.SignedWindow = 30000 // no slashing while the transaction blocks run
 	_ = w.k.SetParams(w.s.Ctx, &pp)
-	w.block()
+	w.opEndBlock(1)
 	regs := w.registered()
 	var tgt *orcView
 	for i := range regs {
@@ -1994,8 +2120,9 @@ func (w *world) txLevel() {
 	bID := w.bridgerID[tgt.o.BridgerAddress]
 	bKey := w.bridgerKeys[bID-bridgerBase]
 	bAddr := w.bridgers[bID-bridgerBase]
+	next := func() uint64 { return w.k.GetLastEventNonceByOracle(w.s.Ctx, tgt.o.GetOracle()) + 1 }
 	mk := func() crosschaintypes.ExternalClaim {
-		n := w.k.GetLastEventNonceByOracle(w.s.Ctx, tgt.o.GetOracle()) + 1
+		n := next()
 		sp := w.spec(n, 7, "p")
 		return w.mkClaim(n, 7, sp, bAddr.String())
 	}
@@ -2032,28 +2159,37 @@ func (w *world) txLevel() {
 		return code == 0, after > before
 	}
 
-	// (a) wrapper W != inner B, signed by W only
-	claim := mk()
-	anyv, _ := codectypes.NewAnyWithValue(claim)
-	ma := &crosschaintypes.MsgClaim{ChainName: w.chain, BridgerAddress: wAddr.String(), Claim: anyv}
-	sa := signers(ma)
-	w.out.Stats.Extra["tx:signers(MsgClaim wrapper!=inner)"] = fmt.Sprintf("required=%v wrapper=%s inner=%s", sa, wAddr, bAddr)
-	_, voted := run("MsgClaim-wrapper!=inner", wKey, ma)
-	if voted {
-		w.violateWith("C02", "signed MsgClaim transaction recorded a vote for an oracle whose registered bridger did not sign (wrapper bridger_address != wrapped claim's bridger_address)",
-			[]string{"# tx-level: MsgClaim{bridger_address: W, claim: {bridger_address: B}} signed by W only; FinalizeBlock accepted it and oracle(B)'s vote was recorded",
-				"# required signers per codec: " + strings.Join(sa, ",")})
+	// (a) wrapper W != inner B, signed by W only (W: an account that is nobody's registered bridger) — op `txclaim`, compared
+	// with the model's txClaimStep (which consults the regenerated deliverability fact)
+	if wID := w.freeBridger(); wID != bID && !w.k.HasOracleAddrByBridgerAddr(w.s.Ctx, w.bridgers[wID-bridgerBase]) {
+		wAddr := w.bridgers[wID-bridgerBase]
+		n := next()
+		claim := w.mkClaim(n, 7, w.spec(n, 7, "p"), bAddr.String())
+		anyv, _ := codectypes.NewAnyWithValue(claim)
+		sa := signers(&crosschaintypes.MsgClaim{ChainName: w.chain, BridgerAddress: wAddr.String(), Claim: anyv})
+		w.out.Stats.Extra["tx:signers(MsgClaim wrapper!=inner)"] = fmt.Sprintf("required=%v wrapper=%s inner=%s", sa, wAddr, bAddr)
+		votesBefore := w.votesOf(tgt.o.GetOracle())
+		w.opTxClaim("MsgClaim-wrapper!=inner", w.bridgerKeys[wID-bridgerBase], wID, bID, n, 7, "p")
+		if w.votesOf(tgt.o.GetOracle()) > votesBefore {
+			w.violateWith("C02", "signed MsgClaim transaction recorded a vote for an oracle whose registered bridger did not sign (wrapper bridger_address != wrapped claim's bridger_address)",
+				[]string{"# tx-level: MsgClaim{bridger_address: W, claim: {bridger_address: B}} signed by W only; FinalizeBlock accepted it and oracle(B)'s vote was recorded",
+					"# required signers per codec: " + strings.Join(sa, ",")})
+		}
 	}
 	// (b) wrapper == inner, signed by B
-	claim = mk()
-	anyv, _ = codectypes.NewAnyWithValue(claim)
-	mb := &crosschaintypes.MsgClaim{ChainName: w.chain, BridgerAddress: bAddr.String(), Claim: anyv}
-	okb, votedb := run("MsgClaim-wrapper==inner", bKey, mb)
-	if okb != votedb {
-		w.out.Violate("MsgClaim transaction result and vote recording disagree")
+	{
+		votesBefore := w.votesOf(tgt.o.GetOracle())
+		okb := w.opTxClaim("MsgClaim-wrapper==inner", bKey, bID, bID, next(), 7, "p")
+		votedb := w.votesOf(tgt.o.GetOracle()) > votesBefore
+		if okb != votedb {
+			w.out.Violate("MsgClaim transaction result and vote recording disagree")
+		}
+		if okb != factBool("C01.claimTxDeliverable") {
+			w.out.Count(fmt.Sprintf("tx:deliverability-fact-disagrees(accepted=%v)", okb))
+		}
 	}
 	// (c) the wrapped claim message on its own, signed by B
-	claim = mk()
+	claim := mk()
 	if cm, ok := claim.(sdk.Msg); ok {
 		sc := signers(cm)
 		w.out.Stats.Extra["tx:signers(direct claim msg)"] = fmt.Sprintf("required=%v bridger=%s", sc, bAddr)
@@ -2067,8 +2203,11 @@ func (w *world) txLevel() {
 				w.violate("C02", "directly submitted claim message recorded a vote although the counted bridger is not among the required signers")
 			}
 		}
-		_ = okc
+		if okc && len(factList("C01.directClaimMsgTypes")) == 0 {
+			w.violate("C01 C02", "a claim message submitted on its own as a transaction was accepted although no claim type is extracted as a transaction message")
+		}
 	}
+	wAddr := sdk.AccAddress(helpers.NewPriKey().PubKey().Address())
 	// every wrapped claim type: the signer the codec derives from the proto signer option must be the bridger the vote
 	// is counted for (GetClaimer)
 	for _, cm := range []crosschaintypes.ExternalClaim{
@@ -2088,7 +2227,7 @@ func (w *world) txLevel() {
 	}
 	// in-process router (no wire round trip): is the mismatch accepted by ValidateBasic + handler?
 	claim = mk()
-	anyv, _ = codectypes.NewAnyWithValue(claim)
+	anyv, _ := codectypes.NewAnyWithValue(claim)
 	md := &crosschaintypes.MsgClaim{ChainName: w.chain, BridgerAddress: wAddr.String(), Claim: anyv}
 	cctx, _ := w.s.Ctx.CacheContext()
 	vb := md.ValidateBasic()
